@@ -61,8 +61,8 @@ def decode_backup(bdir, contents, split_padding=False):
                     usz = None
                     if split_padding and b['manifest']:
                         usz = next((r['size'] for r in b['manifest'] if r['unique'] and r['path'] == '/' + m.name), None)
-                    if usz and 0 < usz < len(data) and not any(data[usz:]):
-                        b['archive'].append(dict(meta, type='file', path=m.name, cid=contents.cid(data[:usz]), len=usz, pad=len(data) - usz))
+                    if usz is not None and usz < len(data) and not any(data[usz:]):
+                        b['archive'].append(dict(meta, type='file', path=m.name, cid=contents.cid(data[:usz]) if usz else 0, len=usz, pad=len(data) - usz))
                     else:
                         b['archive'].append(dict(meta, type='file', path=m.name, cid=contents.cid(data) if data else 0, len=len(data)))
                 elif m.issym():
